@@ -1,4 +1,6 @@
-(* C02 model, continued: the truncation fallback of truncateUncommitted (server/partition.go).
+(* C02 model, continued: two steps of the real code that Repl.Cluster's protocol does not have --
+   the truncation fallback of truncateUncommitted (server/partition.go) and the time-based
+   re-admission to the in-sync set (server/replicator.go, tick).
 
    A replica that learns of a new leader asks it where its own last epoch ends (KReconcile).  When
    that request fails -- three timeouts, or no responder at all because the new leader is already
@@ -8,9 +10,17 @@
 From LB Require Import Base.Prelude Meta.Fsm Repl.Cluster.
 Open Scope Z_scope.
 
+(* The replicator's tick adds a replica back to the in-sync set when it has been seen and has been
+   at the log end at some moment within the last max-lag interval -- not when it is there now.
+   KExpand (Repl.Cluster) is the expansion of a replica that holds the leader's whole log;
+   FExpandBehind is the expansion the time rule allows: any reconciled replica. *)
 Inductive fstep :=
 | FBase (x : kstep)
-| FFallback (r : N).     (* r learns of the current leader, gets no answer, truncates to its own HW *)
+| FFallback (r : N)      (* r learns of the current leader, gets no answer, truncates to its own HW *)
+| FExpandBehind (r : N). (* r, reconciled, is added to the in-sync set wherever its log ends *)
+
+Definition expand_behind (c : cluster) (r : N) : cluster :=
+  mkCl (c_logs c) (c_hws c) (c_leader c) (c_epoch c) (c_isr c ++ [r]) (aset r (-1) (c_view c)) (c_synced c) (c_min_isr c) (c_committed c).
 
 Definition fallback (c : cluster) (r : N) : cluster :=
   let c1 := set_log c r (firstn (Z.to_nat (hw_of c r + 1)) (log_of c r)) in
@@ -20,6 +30,7 @@ Definition fstep_apply (c : cluster) (x : fstep) : option cluster :=
   match x with
   | FBase x => step true c x
   | FFallback r => if negb (mem r (c_synced c)) then Some (fallback c r) else None
+  | FExpandBehind r => if negb (mem r (c_isr c)) && mem r (c_synced c) then Some (expand_behind c r) else None
   end.
 
 Fixpoint frun (c : cluster) (xs : list fstep) : cluster :=
